@@ -2,6 +2,7 @@
 namespace Noodles.Wire
 
 abbrev Bytes := List UInt8
+-- (same type as `Noodles.Codec.Bytes`)
 
 def hexDigit (c : Char) : Option Nat :=
   if '0' ≤ c ∧ c ≤ '9' then some (c.toNat - '0'.toNat)
